@@ -534,6 +534,17 @@ class RealRegistry:
         d.before(name, "snapshot_values")
         return iter(list(collections.OrderedDict.values(self.reg)))
 
+    class KeysView:
+      def __init__(self, reg):
+        self.reg = reg
+
+      def __iter__(self):
+        d.before(name, "snapshot_keys")
+        return iter(list(collections.OrderedDict.keys(self.reg)))
+
+      def __len__(self):
+        return collections.OrderedDict.__len__(self.reg)
+
     class ItemsView:
       def __init__(self, reg):
         self.reg = reg
@@ -583,6 +594,9 @@ class RealRegistry:
       def values(self):
         return ValuesView(self)
 
+      def keys(self):
+        return KeysView(self)
+
       def items(self):
         return ItemsView(self)
     reg = Proxy.__new__(Proxy)
@@ -609,6 +623,8 @@ class RealRegistry:
         if kind == "append":
           self.reg.append(arg)
           self.results[t] = self.reg[arg]
+        elif kind == "name_for":
+          self.results[t] = self.reg.name_for_signal(arg)
         else:
           e = self.ev.Event(signal=arg)
           self.results[t] = (e.signal_name, e.signal)
